@@ -12,6 +12,18 @@ import _boot
 import reg_common as R
 
 
+class FV(R.V):
+    """registered values of which some are FALSY (vid divisible by 3): truthiness is no part of the
+    bookkeeping property, ``None`` alone means "nothing registered" """
+    __slots__ = ()
+
+    def __bool__(self):
+        return self.vid % 3 != 0
+
+
+R.V = FV      # World.value() builds its values from the module global
+
+
 def raw_listing(w, reg):
     regs = []
     for req, prov, name, val in reg.allRegistrations():
